@@ -26,6 +26,11 @@ for p in props:
     else:
         nal.append({"property_id": pid, "reason": na.get(pid, na["_default"])})
 claimed = [c["property_id"] for c in checks]
+# hook commits of /repo, read from its history (every commit whose subject starts with "verif hook:")
+import subprocess
+log = subprocess.run(["git", "-C", "/repo", "log", "--format=%h %s", "--grep=^verif hook"], capture_output=True, text=True).stdout.strip().split("\n")
+if log and log[0]:
+    base["hooks"]["source_commits"] = log
 for e in base["engines"]:
     e["serves_properties"] = claimed
 base["checks"] = checks
